@@ -136,7 +136,7 @@ def f_regex(a):
             outs = sorted([x for x in M["arcs"] if x[0] == q], key=lambda x: (x[1], x[2]))
             if not outs or (len(walk) >= a["long"] and q in finals):
                 break
-            arc = outs[(k * 7 + len(walk)) % len(outs)]
+            arc = outs[(k * k + k // 3) % len(outs)]
             k += 1
             walk.append(arc[1])
             q = arc[2]
